@@ -89,18 +89,30 @@ ENTRY = {'coq_dir': 'C12',
                'until it is done); both are modelled, diffed on the real protocol and proved silent/terminating in Start.v, whose Connection has no '
                "backpressure (few small frames; backpressure is Model.v's subject). The two models meet at Connection::new: Start.v proves what the "
                'substreams hold at that moment, Model.v starts there with empty carriers; the composition is stated (C12_start_end_to_end for two '
-               'Start endpoints) but Model.v and Start.v are not one state machine. In Start.v the 5 s / 10 s timers never fire, dialing is off, and '
-               'a debug_assert!(false) of the Rust code is the outcome `stuck` (never reached in any run). '
-               'NotificationHandle::send_async_notification (the &mut-borrowing wrapper) is covered as the same lookup + the modelled sink-level '
-               'future; try_open/try_close_substream_batch do not affect delivery.',
+               "Start endpoints; C12_start_end_to_end_linked with the carrier hypothesis derived from C04's reader model) but Model.v and Start.v "
+               'are not one state machine. In Start.v the 5 s / 10 s timers never fire, dialing is off, and a debug_assert!(false) of the Rust code '
+               'is the outcome `stuck` (never reached in any run). NotificationHandle::send_async_notification (the &mut-borrowing wrapper) is '
+               'covered as the same lookup + the modelled sink-level future; try_open/try_close_substream_batch do not affect delivery.',
  'assumptions': ['channel capacities >= 1 (tokio panics on 0)',
-                 "a stream is set up again only after both Connection tasks of the previous one have finished (guaranteed by NotificationProtocol's "
-                 'peer state, C11); each endpoint joins a stream at most once',
+                 'a stream is set up again only after both Connection tasks of the previous one have finished; each endpoint joins a stream at most '
+                 'once. This restricts the scheduler model (Model.open_stream refuses otherwise) and is NOT guaranteed by the code: the attempt to '
+                 "derive it from C11 (coq/Link/C11_C12.v) produced the reachable counter-witness C12_setup_condition_not_provided_by_C11 - in C11's "
+                 'model of the repaired NotificationProtocol a stream of a peer is closed by the user while its Connection task is slow to close, '
+                 'the remote re-opens, the user accepts: peer state Open 1 with Connection task 0 of the same peer still alive and closing (since '
+                 'the repair of the late NotificationStreamClosed the protocol reports the close at once). C11 guarantees the alternation of the '
+                 'user-visible events and that the handle holds the newest sink, not that the old Connection has finished; the overlap is handled by '
+                 'the stream-identifier filter (C11_lazy_notification_in_its_period) and the fresh sink of the new stream (C11_gate_is_newest_sink), '
+                 "outside C12's scheduler model",
                  'relative order between the two sending modes is not claimed (matches the property text)',
                  'C12_eventual_delivery: `drainable` (stream open at both ends and left alone, sizes within both maxima, both users have seen '
                  'Opened, poll budget above the queue lengths) and at least as many fair rounds as notifications under way; satisfiable: '
                  'C12_example_drainable',
-                 'C12_start_end_to_end: the carrier delivers a prefix of what was written, in order (C04)'],
+                 'C12_start_end_to_end: the carrier delivers a prefix of what was written, in order - no longer only cited: DISCHARGED by the link '
+                 'coq/Link/C04_C12.v (C12_start_end_to_end_linked, C12_start_carrier_prefix_linked: for any injective reading `enc` of the frame '
+                 "labels as byte strings, what C04's incremental reader returns from any prefix of C04's wire encoding of A's writes, under any read "
+                 "script, is a prefix of A's writes; an instance of C04_reader_roundtrip, the contract C13_carrier_contract uses); left as a "
+                 "hypothesis there: every frame A wrote fits the codec (`Fits`, start_send's size check), and C04's model of the Substream reader is "
+                 'tied to src/substream/mod.rs by ./check C04'],
  'proof_files': ['Properties', 'StartProperties'],
  'clause_map': [["Notifications accepted for sending to a peer through one sending mode are delivered to that peer's user at most once and in "
                  'sending order',
@@ -132,4 +144,5 @@ ENTRY = {'coq_dir': 'C12',
                 ['for all ... configurations and stream close/reopen cycles (quantifier)',
                  'every theorem quantifies over cfg, hint lists and step lists; C12_quiescence_is_a_schedule; C12_tables_in_sync ties the hard-wired '
                  'orders',
-                 'capacity/maximum tables of the generators; tools/gen_c12_tables.py']]}
+                 'capacity/maximum tables of the generators; tools/gen_c12_tables.py']],
+ 'coq_deps': ['C04', 'C11', 'Link']}
